@@ -57,7 +57,7 @@ func (S) Info() scen.Info {
 			"goroutine scheduling":   "stub: single walker task under the seeded scheduler",
 		},
 		QuickUnits: 1500, ThoroughUnits: 150000, QuickSecs: 50, ThoroughSecs: 1200,
-		ProbeKeys: []string{"probe.budget_cut_mid_block", "probe.linkbudget_cut", "probe.startat_inside_linked_block", "probe.startat_skipped_load", "probe.once_pruned", "probe.skipme_pruned", "probe.resume_concat_checked", "probe.w0_ended_in_error", "probe.repeated_link", "probe.matching_walk", "probe.transform_budget_cut"},
+		ProbeKeys: []string{"probe.budget_cut_mid_block", "probe.linkbudget_cut", "probe.startat_inside_linked_block", "probe.startat_skipped_load", "probe.once_pruned", "probe.skipme_pruned", "probe.resume_concat_checked", "probe.w0_ended_in_error", "probe.repeated_link", "probe.matching_walk", "probe.transform_budget_cut", "probe.walklocal_budget_cut"},
 		EventsKey: "events",
 	}
 }
@@ -264,7 +264,7 @@ func (w *world) walk(matching bool, budget *traversal.Budget, startAt datamodel.
 	return res
 }
 
-var ctlNames = []string{"none", "NodeBudget", "LinkBudget", "StartAtPath", "LinkVisitOnlyOnce", "SkipMe", "Resume", "TransformNodeBudget"}
+var ctlNames = []string{"none", "NodeBudget", "LinkBudget", "StartAtPath", "LinkVisitOnlyOnce", "SkipMe", "Resume", "TransformNodeBudget", "WalkLocalNodeBudget"}
 
 func (S) RunTape(t *sim.Tape, st *sim.Stats, keepLog bool) *sim.Outcome {
 	o := &sim.Outcome{}
@@ -602,6 +602,56 @@ func (S) RunTape(t *sim.Tape, st *sim.Stats, keepLog bool) *sim.Outcome {
 			if cut {
 				st.Inc("probe.skipme_pruned")
 			}
+		case 8: // WalkLocal (no selector, no links) under a node budget: exactly the first N visits
+			if matching {
+				return
+			}
+			wl := func(b *traversal.Budget) (paths []string, err error, pan string) {
+				func() {
+					defer func() {
+						if r := recover(); r != nil {
+							if _, ok := r.(interface{ IsStepCap() }); ok {
+								panic(r)
+							}
+							pan = fmt.Sprint(r)
+						}
+					}()
+					err = traversal.Progress{Budget: b}.WalkLocal(w.g.RootNode, func(p traversal.Progress, n datamodel.Node) error {
+						paths = append(paths, p.Path.String())
+						return nil
+					})
+				}()
+				return
+			}
+			l0, e0, p0 := wl(nil)
+			if p0 != "" || e0 != nil {
+				return
+			}
+			N := pos
+			if N > len(l0)+1 {
+				return
+			}
+			got, err, pan := wl(&traversal.Budget{NodeBudget: int64(N), LinkBudget: 1 << 40})
+			var be *traversal.ErrBudgetExceeded
+			isBudget := errors.As(err, &be)
+			want := l0
+			if N < len(l0) {
+				want = l0[:N]
+			}
+			switch {
+			case pan != "":
+				o.Fail("panic", sig, "WalkLocal with NodeBudget=%d panicked: %s", N, pan)
+			case strings.Join(got, "\x00") != strings.Join(want, "\x00"):
+				o.Fail("restricted-walk-differs", sig, "WalkLocal with NodeBudget=%d visited %q, the first %d visits of the unrestricted walk are %q", N, got, N, want)
+			case N < len(l0) && !isBudget:
+				o.Fail("restricted-walk-error", sig, "WalkLocal with NodeBudget=%d of %d visits ended with %v, not a budget error", N, len(l0), err)
+			case N >= len(l0) && err != nil:
+				o.Fail("restricted-walk-error", sig, "WalkLocal with a sufficient NodeBudget=%d (of %d visits) failed: %v", N, len(l0), err)
+			}
+			if N < len(l0) {
+				cut = true
+				st.Inc("probe.walklocal_budget_cut")
+			}
 		case 7: // the transforming walk under a node budget
 			if w0.err != nil || matching {
 				return
@@ -769,5 +819,9 @@ func (S) Unit(u *scen.Unit) {
 			u.Exec(map[string]int{"ctl.kind": 7, "ctl.pos": n, "ctl.matching": 0})
 			u.St.Inc("enum.transform_budget")
 		}
+	}
+	for n := 0; n < 24; n++ {
+		u.Exec(map[string]int{"ctl.kind": 8, "ctl.pos": n, "ctl.matching": 0})
+		u.St.Inc("enum.walklocal_budget")
 	}
 }
